@@ -129,21 +129,16 @@ func (t *Queue[T]) Shutdown(optionalShutdownFlags ...ShutdownFlag) {
 	t.ctxCancel()
 
 	t.heapMutex.Lock()
-	switch queuedElementsCount := len(t.heap); queuedElementsCount {
-	// if the queue is empty ...
-	case 0:
-		// ... stop waiting for new elements
-		t.waitCond.Broadcast()
-
-	// if the queue is not empty ...
-	default:
-		// ... empty it if the corresponding flag was set
-		if t.shutdownFlags.HasBits(CancelPendingElements) {
-			for range queuedElementsCount {
-				heap.Pop(&t.heap)
-			}
+	// empty the queue if the corresponding flag was set
+	if t.shutdownFlags.HasBits(CancelPendingElements) {
+		for range len(t.heap) {
+			heap.Pop(&t.heap)
 		}
 	}
+
+	// stop waiting for new elements (also if the queue is not empty: a poller that was woken up by an Add but did not
+	// run yet does not take all the pending elements, and the other waiting pollers would never be woken up again)
+	t.waitCond.Broadcast()
 	t.heapMutex.Unlock()
 }
 
